@@ -170,6 +170,63 @@ func c19Families(thorough bool) []*engine.IFamily {
 			}
 			return r
 		}}
+	// the same durations in the other textual forms xs:duration allows (what a peer may send): one unit only
+	texts := &engine.IFamily{Name: "duration-texts", Chunks: 4,
+		Rule: "durations written with a single unit, as a peer may send them: PT<n>S and PT<n>.<t>S for n<=100000 (every n up to 4000, then steps), PT<n>M for n<=50000, PT<n>H for n<=10000, P<n>D for n<=3000, each also negative; read with DurationType.GetTimeDuration and as the relative end time of a time period; non-trivial: all",
+		Run: func(chunk int) engine.IResult {
+			var r engine.IResult
+			check := func(text string, want time.Duration) {
+				for _, sign := range []string{"", "-"} {
+					t, w := sign+text, want
+					if sign == "-" {
+						w = -want
+					}
+					r.Evals++
+					r.Nontrivial++
+					dt := model.DurationType(t)
+					got, err := dt.GetTimeDuration()
+					a := model.AbsoluteOrRelativeTimeType(t)
+					got2, err2 := a.GetTimeDuration()
+					if err != nil || got != w || err2 != nil || got2 != w {
+						r.NFails++
+						if len(r.Fails) < 3 {
+							unit := text[len(text)-1:]
+							r.Fails = append(r.Fails, engine.IFail{Key: "a duration text with a single unit is not read as that duration | unit=" + unit,
+								Msg: fmt.Sprintf("%q -> %v (%v) / as relative time %v (%v), want %v", t, got, err, got2, err2, w), Input: t})
+						}
+					}
+				}
+			}
+			step := func(n int) int {
+				if n < 4000 {
+					return 1
+				}
+				return 1 + n/97
+			}
+			switch chunk {
+			case 0:
+				for n := 1; n <= 100000; n += step(n) {
+					check(fmt.Sprintf("PT%dS", n), time.Duration(n)*time.Second)
+					check(fmt.Sprintf("PT%d.%dS", n, n%10), time.Duration(n)*time.Second+time.Duration(n%10)*100*time.Millisecond)
+				}
+			case 1:
+				for n := 1; n <= 50000; n += step(n) {
+					check(fmt.Sprintf("PT%dM", n), time.Duration(n)*time.Minute)
+				}
+			case 2:
+				for n := 1; n <= 10000; n += step(n) {
+					check(fmt.Sprintf("PT%dH", n), time.Duration(n)*time.Hour)
+				}
+			case 3:
+				for n := 1; n <= 3000; n += step(n) {
+					check(fmt.Sprintf("P%dD", n), time.Duration(n)*24*time.Hour)
+				}
+			}
+			if len(r.Samples) == 0 {
+				r.Samples = []string{"PT3600S -> 1h0m0s"}
+			}
+			return r
+		}}
 	inst := &engine.IFamily{Name: "instants", Chunks: chunks,
 		Rule: "every whole second of a dense week (2024-02-26..2024-03-03, includes Feb 29) in four locations; every hour of that week in every zone offset from -14:00 to +14:00 in quarter hours; for every year 1..9999 the first and last second of every month and of 29 February; non-trivial: all (each exercises the textual form)",
 		Run: func(chunk int) engine.IResult {
@@ -285,7 +342,7 @@ func c19Families(thorough bool) []*engine.IFamily {
 			}
 			return r
 		}}
-	return []*engine.IFamily{scaled, grid, dur, inst, periodF}
+	return []*engine.IFamily{scaled, grid, dur, texts, inst, periodF}
 }
 
 func abs(k int) int {
